@@ -834,6 +834,20 @@ def f64_specials(name, rng, n_random):
             m = _fr_to_float(Fr(a + b, 1 << 25))
             for y in _ulp_neighbours(m) + _ulp_neighbours(_fr_to_float(Fr(a, 1 << 24))):
                 out += [y, -y]
+            # the half-precision midpoints on either side of a format tie point: a float64 one ulp beyond such a midpoint
+            # rounds (correctly) to the half ABOVE the tie, but through an intermediate float32 it lands on the tie itself
+            if m == m and 0 < abs(m) < 65504:
+                try:
+                    h16 = struct.unpack(">e", struct.pack(">e", m))[0]
+                except (OverflowError, struct.error):
+                    h16 = None
+                if h16 is not None and h16 == m:
+                    hb = int.from_bytes(struct.pack(">e", m), "big")
+                    for nb in (hb + 1, hb - 1):
+                        if 0 <= nb <= 0x7bff:
+                            mid16 = (m + half2f(nb)) / 2
+                            for y in _ulp_neighbours(mid16):
+                                out += [y, -y]
     if name == "mxint":
         for k in range(-260, 261):
             for y in _ulp_neighbours(k / 128):                    # 64x = k/2: every integer and every tie
